@@ -159,8 +159,8 @@ def _encode_into(kind: str, msgs: list[Msg], g0: bytes, g1: bytes, rng_cfg: dict
             except AttributeError as e:
                 return None, f"sink-api:{'/'.join(s.touched) or e}"
         s.write(g1)
-        if s.touched:
-            return None, f"sink-api:{'/'.join(sorted(set(s.touched)))}"
+        # (an attribute merely probed with hasattr/getattr-default is not a use;
+        # a use raises AttributeError above)
         if s.bad_args:
             return None, f"sink-non-bytes-argument:{s.bad_args[0]}"
         if streams.sink_mutated(s):
@@ -246,8 +246,6 @@ def _decode_from(kind: str, data: bytes, msgs: list[Msg], g0: int, g1: bytes, ch
         except Exception as e:  # noqa: BLE001
             return f"decode-raised:{type(e).__name__}"
     if kind == "simsource":
-        if src.touched:
-            return f"source-api:{'/'.join(sorted(set(src.touched)))}"
         if src.readall or src.bad_sizes:
             return "source-api:read-without-exact-size"
     rest = src.read()
